@@ -135,6 +135,28 @@ func harnessIntrinsic(name string) (intrinsic, bool) {
 			t := args[0].(*Term)
 			return mkBV(t.sort.w, e.concretize(t, "vConcretize"))
 		}, true
+	case "vChoice":
+		// vChoice(name, n): concrete nondeterministic choice 0..n-1, forked without solver queries
+		return func(e *Exec, fn *ssa.Function, args []Value) Value {
+			nm := e.constStr(args[0], name)
+			n := int(e.concreteInt(args[1].(*Term), types.Typ[types.Int], "vChoice n"))
+			if n <= 0 {
+				panic(pathEnd{kind: "infeasible"})
+			}
+			if e.local != nil || e.ifc != nil {
+				panic(localFail{"vChoice in summarised function"})
+			}
+			t := e.newNondet(nm, sBV(64), "i64")
+			d := e.decide(func() []uint64 {
+				vals := make([]uint64, n)
+				for k := range vals {
+					vals[k] = uint64(k)
+				}
+				return vals
+			})
+			e.addPC(e.eq(t, mkBV(64, d)))
+			return mkBV(64, d)
+		}, true
 	case "vBound":
 		return func(e *Exec, fn *ssa.Function, args []Value) Value {
 			nm := e.constStr(args[0], name)
